@@ -49,6 +49,28 @@ def expansion_time_load_programs():
     return out
 
 
+def rejected_tail_call_programs():
+    """a call in tail position that tail-call elimination collapses into an earlier frame of the same function and that
+    the binder then REJECTS (wrong number of arguments, bad keyword): the error belongs to that call expression"""
+    out = []
+    N = S("n")
+    dec = [S("-"), N, 1]
+    tails = [lambda bad, go: [S("if"), [S("="), N, 0], bad, go], lambda bad, go: [S("if"), [S(">"), N, 0], go, bad],
+             lambda bad, go: [S("cond"), [[S("="), N, 0], bad], [S("else"), go]], lambda bad, go: [S("progn"), [S("probe"), Q(S("turn")), N], [S("if"), [S("="), N, 0], bad, go]],
+             lambda bad, go: [S("let"), [[S("m"), N]], [S("if"), [S("="), S("m"), 0], bad, go]]]
+    for k in (0, 1, 3):
+        for t in tails:
+            for bad in ([S("f")], [S("f"), 1, 2]):
+                out.append([[S("defun"), S("f"), [N], t(bad, [S("f"), dec])], [S("f"), k]])
+            # the rejected call is reached through ordinary recursion: every frame below keeps its own call site
+            out.append([[S("defun"), S("f"), [N], t([S("f")], [S("+"), 1, [S("f"), dec]])], [S("list"), 1, [S("f"), k]]])
+            # mutual recursion: g's tail call of f is collapsed into f's frame, through g's
+            out.append([[S("defun"), S("g"), [N], [S("if"), [S("="), N, 0], [S("f")], [S("f"), dec]]], [S("defun"), S("f"), [N], t([S("g"), 0], [S("g"), N])], [S("f"), k]])
+        out.append([[S("defun"), S("f"), [N, S("&key"), S("a")], [S("if"), [S("="), N, 0], [S("f"), 0, S(":b"), 1], [S("f"), dec, S(":a"), 1]]], [S("f"), k]])
+        out.append([[S("defun"), S("f"), [N, S("&optional"), S("o")], [S("if"), [S("="), N, 0], [S("f"), 0, 1, 2], [S("f"), dec, 1]]], [S("f"), k]])
+    return out
+
+
 def run(tier):
     V = Verdict("C18", tier)
     work = Work("C18")
@@ -88,6 +110,12 @@ def _run(V, work, tier):
         recs.append(rec)
         drv.append({"id": i, "seq": srcs, "cfg": {}})
         poss.append(pos)
+    for forms in rejected_tail_call_programs():
+        i = len(recs)
+        rec, srcs, pos = mach.prog_with_layout(i, [forms], {}, None, rnd)
+        recs.append(rec)
+        drv.append({"id": i, "seq": srcs, "cfg": {}})
+        poss.append(pos)
     # the MIX family: failures inside callbacks, later calls and operator bodies AFTER a tail loop was collapsed in the same
     # builtin call / operator / function, through cross-package calls, macros, threading forms and handlers that rethrow
     import mix
@@ -122,7 +150,9 @@ def _run(V, work, tier):
         mloc = poss[i].get(me["v"]["i"])
         rloc = ("load-string" if err.get("file") == "load-string" else 0, err.get("line"), err.get("col")) if err.get("line") else None
         if mloc != rloc:
-            V.add(None, "error location differs: %s reported at %s, the failing form is at %s" % (err["cond"], rloc and rloc[1:], mloc and mloc[1:]),
+            # (Machine.tla FailAt: the position the code is known to report instead travels in the error's p field)
+            alt = poss[i].get(me["v"].get("p")) if isinstance(me["v"].get("p"), int) else None
+            V.add("rejected-tail-call-located-at-reused-frame" if alt is not None and alt == rloc else None, "error location differs: %s reported at %s, the failing form is at %s" % (err["cond"], rloc and rloc[1:], mloc and mloc[1:]),
                   {"src": src, "real": rloc, "expected": mloc, "msg": err.get("msg")})
             continue
         ms = [(f["name"], poss[i].get(f["src"], (None, None, None))[1:]) for f in reversed(me["estack"])]
